@@ -68,14 +68,98 @@ def new_attrs(ctx, d=None, maybe=None):
 def new_dataset(ctx, content, attrs=None, chunks=None, dtype=None, name="dset",
                 item_shape=()):
     content.item_shape = tuple(item_shape)
-    return ctx.obj("H5Dataset", {"content": content, "attrs": attrs or new_attrs(ctx),
-                                 "chunks": chunks, "dtype": dtype, "name": name,
-                                 "item_shape": tuple(item_shape)}, name=name)
+    ds = ctx.obj("H5Dataset", {"content": content, "attrs": attrs or new_attrs(ctx),
+                               "chunks": chunks, "dtype": dtype, "name": name,
+                               "item_shape": tuple(item_shape)}, name=name)
+    ds.fields["attrs"].fields.setdefault("_file", ds)
+    return ds
 
 
 def new_group(ctx, members=None, maybe=None, name="/grp", attrs=None):
-    return ctx.obj("H5Group", {"members": dict(members or {}), "maybe": dict(maybe or {}),
-                               "name": name, "attrs": attrs or new_attrs(ctx)}, name=name)
+    g = ctx.obj("H5Group", {"members": dict(members or {}), "maybe": dict(maybe or {}),
+                            "name": name, "attrs": attrs or new_attrs(ctx)}, name=name)
+    g.fields["attrs"].fields.setdefault("_file", g)
+    return g
+
+
+def _fs_effect(interp, fobj, kind, detail):
+    """every modification of an object inside an HDF5 file opened from a path is
+    an event of the ghost file system (pyvc.fsghost)"""
+    from . import fsghost
+    if fobj.fields.get("_closed"):
+        raise _eng().PyRaise(ValueError, ("Invalid file identifier (file is closed)",))
+    fsghost.event(interp, kind, fobj.fields["path"], obj=fobj, mode=fobj.fields.get("mode"),
+                  detail=detail or "")
+    if kind == "close":
+        fobj.fields["_closed"] = True
+
+
+fs_effect = [_fs_effect]
+
+
+def open_file(interp, path, mode="r", members=None, maybe=None, attrs=None):
+    """h5py.File(path, mode): H-OPEN -- the object is a group whose modifications
+    are events on `path`"""
+    from . import fsghost
+    ctx = interp.ctx
+    fobj = new_group(ctx, members=members, maybe=maybe, name="/", attrs=attrs)
+    fobj.fields["path"] = path
+    fobj.fields["mode"] = mode
+    fobj.fields["filename"] = str(path) if not isinstance(path, SObj) else path
+    fobj.fields["file"] = fobj
+    import h5py
+    fobj.realcls = h5py.File
+    fsghost.event(interp, "open", path, obj=fobj, mode=mode)
+    return fobj
+
+
+def _h5file_model(interp, name=None, mode="r", *a, **k):
+    """h5py.File(name, mode): the tree stored under a path persists between
+    handles; mode "w" truncates; the content of a file that this run has not
+    written is given by the unit (``h5_content(ctx, path)``) or unknown"""
+    ctx = interp.ctx
+    store = ctx.__dict__.setdefault("_h5files", {})
+    key = id(name) if isinstance(name, SObj) else str(name)
+    if mode == "w" or key not in store:
+        tree = None
+        if mode != "w":
+            fn = getattr(ctx.unit, "h5_content", None)
+            tree = fn(ctx, name) if fn is not None else None
+        if tree is None:
+            tree = {"members": {}, "maybe": {}, "attrs": new_attrs(ctx), "open_world": mode != "w"}
+        new = True
+    else:
+        tree = store[key]
+        new = False
+    fobj = open_file(interp, name, mode, attrs=tree["attrs"])
+    # the handle shares the member tables of the stored tree
+    fobj.fields["members"] = tree["members"]
+    fobj.fields["maybe"] = tree["maybe"]
+    if tree.get("open_world"):
+        fobj.fields["open_world"] = True
+    if new:
+        store[key] = tree
+    return fobj
+
+
+try:
+    import h5py as _h5py
+    models._MODELS[_h5py.File] = _h5file_model
+except ImportError:      # pragma: no cover
+    pass
+
+
+def file_of(obj):
+    while isinstance(obj, SObj) and "path" not in obj.fields and obj.fields.get("_file") is not None:
+        obj = obj.fields["_file"]
+    return obj if isinstance(obj, SObj) and "path" in obj.fields else None
+
+
+def note_h5_write(interp, obj, detail):
+    if fs_effect[0] is not None:
+        f = file_of(obj)
+        if f is not None:
+            fs_effect[0](interp, f, "write", detail)
 
 
 # --------------------------------------------------------------------------
@@ -125,6 +209,7 @@ def _attrs_setitem(interp, obj, key, val):
     if is_sym(key):
         raise _eng().Unsupported("symbolic attribute name")
     axiom("H-ATTR")
+    note_h5_write(interp, obj, f"attribute {key}")
     interp.heap_write(obj)
     obj.fields["maybe"].pop(key, None)
     obj.fields["d"][key] = val
@@ -142,6 +227,7 @@ def _attrs_delitem(interp, obj, key):
     found, _ = _attr_lookup(interp, obj, key)
     if not found:
         raise _eng().PyRaise(KeyError, (key,))
+    note_h5_write(interp, obj, f"delete attribute {key}")
     interp.heap_write(obj)
     obj.fields["d"].pop(key, None)
     obj.fields["maybe"].pop(key, None)
@@ -221,6 +307,7 @@ def _ds_resize(interp, obj, size, axis=None):
     if isinstance(size, tuple):
         size = size[0]
     axiom("H-RESIZE")
+    note_h5_write(interp, obj, "resize")
     interp.heap_write(obj)
     c = obj.fields["content"]
     old_n, old_a = c.n, c.a
@@ -263,6 +350,7 @@ def _ds_getitem(interp, obj, key):
 @method("H5Dataset", "__setitem__")
 def _ds_setitem(interp, obj, key, val):
     axiom("H-SLICE")
+    note_h5_write(interp, obj, "write slice")
     interp.heap_write(obj)
     c = obj.fields["content"]
     if isinstance(val, SObj) and val.clsname == "H5Dataset":
@@ -372,15 +460,36 @@ def _grp_lookup(interp, obj, key):
             return True, interp.ctx.obj("H5Payload", {"value": v})
         return False, None
     if is_sym(key):
+        if obj.fields.get("open_world"):
+            # nothing is known about the members of this group: present or not
+            if interp.ctx.decide(interp.ctx.bool("member?")):
+                return True, _tag(obj, _unknown_member(interp, obj, "sym"))
+            return False, None
         raise _eng().Unsupported("symbolic member name")
     m, maybe = obj.fields["members"], obj.fields["maybe"]
+    if obj.fields.get("open_world") and key not in m and key not in maybe:
+        maybe[key] = (interp.ctx.bool(f"has_{key}"), _unknown_member(interp, obj, key))
     if key in m:
-        return True, m[key]
+        return True, _tag(obj, m[key])
     if key in maybe:
         present, val = maybe[key]
         if interp.ctx.decide(present):
-            return True, val
+            return True, _tag(obj, val)
     return False, None
+
+
+def _unknown_member(interp, obj, key):
+    g = new_group(interp.ctx, name=f"{obj.fields['name']}/{key}")
+    g.fields["open_world"] = True
+    g.fields["unknown_kind"] = True      # may as well be a dataset: only effects are tracked
+    return g
+
+
+def _tag(owner, val):
+    """remember the containing group (the way to the file an object lives in)"""
+    if isinstance(val, SObj) and val is not owner and "_file" not in val.fields and "path" not in val.fields:
+        val.fields["_file"] = owner
+    return val
 
 
 @method("H5Group", "__contains__")
@@ -391,6 +500,11 @@ def _grp_contains(interp, obj, key):
         found, _ = _grp_lookup(interp, obj, key)
         return found
     m, maybe = obj.fields["members"], obj.fields["maybe"]
+    if obj.fields.get("open_world"):
+        if is_sym(key):
+            return interp.ctx.bool("member?")
+        if key not in m and key not in maybe:
+            maybe[key] = (interp.ctx.bool(f"has_{key}"), _unknown_member(interp, obj, key))
     if key in m:
         return True
     if key in maybe:
@@ -417,9 +531,39 @@ def _grp_delitem(interp, obj, key):
     found, val = _grp_lookup(interp, obj, key)
     if not found:
         raise _eng().PyRaise(KeyError, (key,))
+    note_h5_write(interp, obj, f"delete {key}")
     interp.heap_write(obj)
     obj.fields["members"].pop(key, None)
     obj.fields["maybe"].pop(key, None)
+
+
+@method("H5Group", "__setitem__")
+def _grp_setitem(interp, obj, key, val):
+    """group[name] = existing object: a hard link"""
+    if is_sym(key) and not isinstance(key, models.SFmt):
+        raise _eng().Unsupported("symbolic member name")
+    note_h5_write(interp, obj, "link")
+    interp.heap_write(obj)
+    k = key if isinstance(key, str) else repr(key)
+    obj.fields["maybe"].pop(k, None)
+    obj.fields["members"][k] = val
+
+
+@method("H5Group", "__enter__")
+def _grp_enter(interp, obj):
+    return obj
+
+
+@method("H5Group", "__exit__")
+def _grp_exit(interp, obj, *a):
+    if fs_effect[0] is not None and "path" in obj.fields and not obj.fields.get("_closed"):
+        fs_effect[0](interp, obj, "close", None)
+    return None
+
+
+@method("H5Group", "close")
+def _grp_close(interp, obj):
+    return _grp_exit(interp, obj)
 
 
 @method("H5Group", "__len__")
@@ -452,8 +596,10 @@ def _grp_require(interp, obj, name):
     found, val = _grp_lookup(interp, obj, name)
     if found:
         return val
+    note_h5_write(interp, obj, f"create group {name}")
     interp.heap_write(obj)
     g = new_group(interp.ctx, name=f"{obj.fields['name']}/{name}")
+    g.fields["_file"] = obj
     obj.fields["maybe"].pop(name, None)
     obj.fields["members"][name] = g
     return g
@@ -473,6 +619,7 @@ def _grp_create_dataset(interp, obj, name, shape=None, dtype=None, data=None,
     eng = _eng()
     ctx = interp.ctx
     axiom("H-CREATE")
+    note_h5_write(interp, obj, f"create dataset {name}")
     num = models.numeric_name(name)
     if num is not None:
         if "num_dom" not in obj.fields:
@@ -521,6 +668,7 @@ def _grp_create_dataset(interp, obj, name, shape=None, dtype=None, data=None,
         ds.fields["dtype"] = str_dtype(ctx, dtype.parts[1])
         content.elem_pytype = bytes
     ds.fields["create_kw"] = dict(kw, maxshape=maxshape)
+    ds.fields["_file"] = obj
     obj.fields["maybe"].pop(name, None)
     obj.fields["members"][name] = ds
     return ds
@@ -557,7 +705,8 @@ def _sp_with_suffix(interp, p, suffix):
 
 @method("SymPath", "rename")
 def _sp_rename(interp, p, target):
-    interp.ctx.__dict__.setdefault("fs_log", []).append(("rename", p, target))
+    from . import fsghost
+    fsghost.event(interp, "rename", p, target=target)
     return target
 
 
@@ -568,7 +717,8 @@ def _sp_exists(interp, p):
 
 @method("SymPath", "unlink")
 def _sp_unlink(interp, p, *a, **k):
-    interp.ctx.__dict__.setdefault("fs_log", []).append(("unlink", p))
+    from . import fsghost
+    fsghost.event(interp, "unlink", p)
     return None
 
 
